@@ -22,7 +22,7 @@ func TestMain(m *testing.M) { vt.Main(m, "C18") }
 
 // setup defines the shared prototypes used by typed descendants (they must be shared:
 // two separate `Int.bear` prototypes are different prototypes).
-const setup = `PI := Int.bear; PI2 := PI.bear; PF := Float.bear; PS := Str.bear; PA := Arr.bear; PR := Range.bear; PN := Nil.bear; PO := {a: 1}; PM := Map.bear; nil`
+const setup = `PI := Int.bear; PI2 := PI.bear; PF := Float.bear; PS := Str.bear; PA := Arr.bear; PR := Range.bear; PN := Nil.bear; PO := {a: 1}; PM := Map.bear; Rev := Int.bear({'<=>: m{|o| Int['<=>](o, self)}}); RevS := Str.bear({'<=>: m{|o| Str['<=>](o, self)}}); nil`
 
 // Val is one pool value: its source spelling and its ordered family ("" = none).
 type Val struct {
@@ -103,6 +103,29 @@ func payloadEqualProtoDiffers(x, y object.PanObject) bool {
 	return xi.Proto() != yi.Proto()
 }
 
+var scalarProtos = []object.PanObject{object.BuiltInIntObj, object.BuiltInFloatObj, object.BuiltInStrObj, object.BuiltInArrObj, object.BuiltInMapObj, object.BuiltInRangeObj, object.BuiltInNilObj, object.BuiltInFuncObj, object.BuiltInNumObj}
+
+func isPlainOrChildObj(o object.PanObject) bool { _, ok := o.(*object.PanObj); return ok }
+
+// objectChildOfScalarProto: o is an object (not a scalar value) whose prototype chain runs through the prototype of a
+// scalar / container type (what Str.bear({...}), "a".bear, Int.bear make).
+func objectChildOfScalarProto(o object.PanObject) bool {
+	if _, ok := o.(*object.PanObj); !ok {
+		return false
+	}
+	for p, n := o, 0; p != nil && n < 64; p, n = p.Proto(), n+1 {
+		if _, isObj := p.(*object.PanObj); !isObj {
+			return true // a scalar value in the chain ("a".bear)
+		}
+		for _, sp := range scalarProtos {
+			if p == sp {
+				return true
+			}
+		}
+	}
+	return false
+}
+
 func isNaN(o object.PanObject) bool {
 	f, ok := object.TraceProtoOfFloat(o)
 	return ok && math.IsNaN(f.Value)
@@ -129,6 +152,11 @@ func (w *world) checkRaw(c Case) (sig, detail string) {
 				}
 			}
 		}
+	}
+	if c.Law == "symmetry" && len(vs) == 2 && objectChildOfScalarProto(vs[0].o) != objectChildOfScalarProto(vs[1].o) && isPlainOrChildObj(vs[0].o) && isPlainOrChildObj(vs[1].o) {
+		// an object whose prototype chain runs through Int / Float / Str / Arr / ... answers == with that type's rule,
+		// a plain object with BaseObj's (own pairs only): see the open finding of this name
+		suffix = ":plain-object-vs-object-child-of-scalar-prototype"
 	}
 	srcs := []string{}
 	for _, v := range vs {
@@ -381,6 +409,12 @@ var fixedPool = []Val{
 	{"PF.new(2.5)", "float", nil}, {"PF.new(0.5)", "float", nil}, {"PF.new(-7.25)", "float", nil},
 	{`""`, "str", nil}, {`"a"`, "str", nil}, {`"b"`, "str", nil}, {`"ab"`, "str", nil}, {`"B"`, "str", nil}, {`"日本"`, "str", nil}, {"'a", "str", nil}, {"'zz", "str", nil},
 	{strconv.Quote(longStr(1, 0)), "str", nil}, {strconv.Quote(longStr(1, 2)), "str", nil}, {strconv.Quote(longStr(1, 3)), "str", nil}, {strconv.Quote(longStr(30, 0)), "str", nil}, {strconv.Quote(longStr(30, 2)), "str", nil}, {"PS.new(" + strconv.Quote(longStr(1, 2)) + ")", "str", nil},
+	// a family whose prototype defines its own (reversed) order: the laws hold for that order
+	{"Rev.new(1)", "rev", nil}, {"Rev.new(2)", "rev", nil}, {"Rev.new(-5)", "rev", nil}, {"Rev.new(2)", "rev", nil}, {"Rev.new(0)", "rev", nil},
+	{`RevS.new("a")`, "revs", nil}, {`RevS.new("b")`, "revs", nil}, {`RevS.new("")`, "revs", nil}, {`RevS.new("ab")`, "revs", nil},
+	// children of scalar values and prototypes made by bear (objects, not scalars): equality laws only
+	{`"a".bear`, "", nil}, {`"a".bear({x: 1})`, "", nil}, {"Str.bear({x: 1})", "", nil}, {"PS", "", nil}, {"1.bear", "", nil}, {"Int.bear({x: 1})", "", nil}, {"PI", "", nil}, {"2.5.bear", "", nil}, {"PF", "", nil},
+	{"[1].bear", "", nil}, {"PA", "", nil}, {"nil.bear", "", nil}, {"true.bear", "", nil}, {"(1:2).bear", "", nil}, {"{|x| x}.bear", "", nil}, {"Int", "", nil}, {"Str", "", nil}, {"Float", "", nil}, {"Arr", "", nil}, {"Obj", "", nil},
 	{`PS.new("a")`, "str", nil}, {`PS.new("c")`, "str", nil}, {`PS.new("")`, "str", nil},
 	{"nil", "", nil}, {"PN.new", "", nil}, {"[]", "", nil}, {"[1]", "", nil}, {"[1, 2]", "", nil}, {"[2, 1]", "", nil}, {"[true]", "", nil}, {"[nil]", "", nil}, {"[[1], {a: [2]}]", "", nil}, {"[[1], {a: [3]}]", "", nil},
 	{"PA.new([1])", "", nil}, {"PA.new([1, 2])", "", nil}, {"PA.new([])", "", nil},
